@@ -394,6 +394,18 @@ class T(Entity):
         def logic():
             self.o <<= std.to_bits(self.pa)
 ''',
+    "enum-typed-port": HDR + '''
+class E2(enum.Enum):
+    a = enum.auto()
+    b = enum.auto()
+class T(Entity):
+    pe = Port.input(E2)
+    o = Port.output(Bit)
+    def architecture(self):
+        @std.concurrent
+        def logic():
+            self.o <<= self.pe == E2.a
+''',
     "portless-entity-instantiated": HDR + '''
 class Leaf(Entity):
     def architecture(self):
